@@ -271,7 +271,11 @@ def cstep(job, lim):
                     continue
                 steps, r_used, nsteps, dth_used = p.result
                 want_n = 2 * int(round(16.0 / math.log(abs(r_used)))) + 1
-                job.confirm('default num_steps formula', nsteps == want_n and len(steps) == nsteps)
+                # documented default count: 2*round(16/log|ratio|)+1 -- the modulus of the ratio, whatever its argument
+                want_doc = 2 * int(round(16.0 / math.log(ratio))) + 1
+                if not job.confirm('default num_steps formula', nsteps == want_n == want_doc and len(steps) == nsteps):
+                    job.violation('count', dict(key='C10:cstep:default-count', kind='cstep', path=path, ratio=ratio, got=int(nsteps), want=want_doc))
+                    continue
                 if path == 'radial':
                     ok = dth_used == 0 and not isinstance(r_used, complex) and r_used == ratio
                 else:
